@@ -255,7 +255,13 @@ func c14RunOnce(e *core.Env, c *c14Case) {
 			_ = os.Remove(c.OutPath)
 		}
 	}
-	c.Run = e.Run(core.RunSpec{Args: []string{c.Argv}, Dir: c.Dir, WallSec: c14WallSec})
+	spec := core.RunSpec{Args: []string{c.Argv}, Dir: c.Dir, WallSec: c14WallSec}
+	if strings.HasPrefix(c.S.InjectClass, "corpus/import-c") {
+		// the harness runs the tool with cgo switched off (the file would simply be ignored by go list);
+		// these cases are about the cgo path
+		spec.Env = []string{"CGO_ENABLED=1"}
+	}
+	c.Run = e.Run(spec)
 }
 
 // c14RerunAlone repeats a CPU-suspect run alone under a 60 s CPU budget (RLIMIT_CPU via ulimit -t).
